@@ -232,8 +232,9 @@ def readFromStream(substrate, size=-1, context=None):
         Input stream is exhausted
     """
     while True:
-        # this will block unless stream is non-blocking
-        received = substrate.read(size)
+        # this will block unless stream is non-blocking; a length field of a
+        # malformed encoding may exceed what read() can take as a size
+        received = substrate.read(min(size, sys.maxsize))
         if received is None:  # non-blocking stream can do this
             yield error.SubstrateUnderrunError(context=context)
 
